@@ -5,12 +5,17 @@ From FxpVerif Require Import Spec NP Store ProofsCore Bitwise Shift ProofsShift.
 Import ListNotations.
 Open Scope Z_scope.
 
-(* x << n in expand mode equals x * 2^n exactly: the word grows as needed, no flag *)
-Theorem C14_lshift_expand : forall f c n, 0 <= n -> 1 <= nw f -> nw f + n <= 62 -> in_range f c ->
+(* x << n in expand mode equals x * 2^n exactly: the word grows as needed, no flag - for EVERY word length and every shift
+   count (the needed bits are counted exactly on integers, the shift is done on Python integers from 64 bits on) *)
+Theorem C14_lshift_expand : forall f c n, 0 <= n -> 1 <= nw f -> in_range f c ->
   exists w, fxp_lshift ShExpand f c n = Ok (lshift_fmt ShExpand f [c] n, w) /\
     w_codes w = [c * 2^n] /\ w_ovf w = false /\ w_unf w = false /\ nf (lshift_fmt ShExpand f [c] n) = nf f.
 Proof. exact lshift_expand_exact. Qed.
 Print Assumptions C14_lshift_expand.
+(* shifting by zero is the identity on the format too: no bit is added that is not needed *)
+Theorem C14_lshift_zero_keeps_format : forall f c, 1 <= nw f -> in_range f c -> lshift_fmt ShExpand f [c] 0 = f.
+Proof. exact lshift_zero_keeps_format. Qed.
+Print Assumptions C14_lshift_zero_keeps_format.
 
 (* x >> n in expand mode equals x / 2^n exactly (arrays of any length): the stored codes times
    2^(n-e) are the old codes and the fraction grew by e, so no bit is lost; min_pow2's loop is
